@@ -386,6 +386,11 @@ theorem handleMessage_dup_le {L L' : Ledger} {sender : Addr} {msg : Msg} (hc : m
     simp only [handleMessage, handleSend] at h
     obtain ⟨L1, h1, h2⟩ := bind_ok h
     exact Nat.le_of_eq (dup_same ((sameStaking_accountSub h1).trans (sameStaking_accountAdd h2)).validators)
+  | sendVesting s d x st cl en =>
+    simp only [handleMessage, handleSendVesting] at h
+    obtain ⟨_, _, h⟩ := bind_ok h
+    obtain ⟨L1, h1, h2⟩ := bind_ok h
+    exact Nat.le_of_eq (dup_same ((sameStaking_accountSub h1).trans (sameStaking_accountAddWithVesting h2)).validators)
   | stake a x cs dl c o =>
     simp only [Msg.check] at hc
     obtain ⟨_, hcc, _⟩ := bind_ok hc
